@@ -57,3 +57,8 @@ func vMaterialised() int64
 func vReadAllCalls() int
 func vReadAllUnlimited() bool
 func vMemMark()
+
+func vRandInstall()
+func vRandPos() int
+func vRandByte(i int) byte
+func vHex(b byte) string
